@@ -110,3 +110,81 @@ class ProblemFidelity(Harness):
 
 
 HARNESSES = [ProblemFidelity()]
+
+# ---- deductive: the accept / reject boundary of the type check (uses the proved contract of PDDLType.is_sub_type, C06) ----------
+import z3
+from pyvc.core import Val
+from contracts.c06 import HOOKS as _C06_HOOKS, CONTRACTS as _C06_CONTRACTS
+PP = "lisp_parsers.problem_parser:ProblemParser."
+_ITEM = "seq(predicate_signature_items)[{i}]"
+
+
+def _type_of(interp, st, parser, item):
+    """declared type of an argument: the domain constant's type if the name is a constant, otherwise the problem object's type"""
+    prob = interp.read_field(st, parser, "ProblemParser", "problem")
+    dom = interp.read_field(st, parser, "ProblemParser", "domain")
+    objs = Val(interp.read_field(st, Val(prob.t, ("ref", "Problem")), "Problem", "objects").t, ("ref", "dict_PDDLObject"))
+    consts = Val(interp.read_field(st, Val(dom.t, ("ref", "Domain")), "Domain", "constants").t, ("ref", "dict_PDDLObject"))
+    ok = interp.read_field(st, objs, "dict_PDDLObject", "keys").t
+    om = interp.read_field(st, objs, "dict_PDDLObject", "map").t
+    ck = interp.read_field(st, consts, "dict_PDDLObject", "keys").t
+    cm = interp.read_field(st, consts, "dict_PDDLObject", "map").t
+    obj = z3.If(z3.Contains(ck, z3.Unit(item.t)), z3.Select(cm, item.t), z3.Select(om, item.t))
+    known = z3.Or(z3.Contains(ck, z3.Unit(item.t)), z3.Contains(ok, z3.Unit(item.t)))
+    ty = interp.read_field(st, Val(obj, ("ref", "PDDLObject")), "PDDLObject", "type")
+    return known, ty
+
+
+def _h_known(interp, st, a):
+    return Val(_type_of(interp, st, a[0], a[1])[0], "bool")
+
+
+def _h_conforms(interp, st, a):
+    """conforms(parser, item, required_type): the argument's declared type is a subtype of the required type (ancestor test by name)"""
+    from pyvc.sorts import anc
+    _, ty = _type_of(interp, st, a[0], a[1])
+    N = interp.heap_arr(st, "PDDLType", "name", "str")
+    P = interp.heap_arr(st, "PDDLType", "parent", ("ref", "PDDLType"))
+    return Val(anc(N, P, ty.t, z3.Select(N, a[2].t)), "bool")
+
+
+def _h_heap_closed(interp, st, a):
+    """objects and constants map their names to allocated PDDLObject objects whose type is an allocated PDDLType"""
+    from pyvc.sorts import I, S
+    parser = a[0]
+    prob = interp.read_field(st, parser, "ProblemParser", "problem")
+    dom = interp.read_field(st, parser, "ProblemParser", "domain")
+    out = []
+    for holder, cls, fld in ((prob, "Problem", "objects"), (dom, "Domain", "constants")):
+        d = Val(interp.read_field(st, Val(holder.t, ("ref", cls)), cls, fld).t, ("ref", "dict_PDDLObject"))
+        ks = interp.read_field(st, d, "dict_PDDLObject", "keys").t
+        mp = interp.read_field(st, d, "dict_PDDLObject", "map").t
+        k = z3.Const(f"k!hc{fld}", S)
+        o = z3.Select(mp, k)
+        ty = z3.Select(interp.heap_arr(st, "PDDLObject", "type", ("ref", "PDDLType")), o)
+        out.append(z3.And(d.t >= 1, d.t <= st.top))
+        out.append(z3.ForAll([k], z3.Implies(z3.Contains(ks, z3.Unit(k)), z3.And(o >= 1, o <= st.top, ty >= 1, ty <= st.top))))
+    return Val(z3.And(*out), "bool")
+
+
+_C05_HOOKS = dict(_C06_HOOKS, known=_h_known, conforms=_h_conforms, heap_closed=_h_heap_closed)
+_SIGT = "lifted_predicate.signature[lifted_predicate.signature.keys()[{i}]]"
+CONTRACTS["models.pddl_type:PDDLType.is_sub_type"] = dict(_C06_CONTRACTS["models.pddl_type:PDDLType.is_sub_type"], prop="C06")
+CONTRACTS[PP + "_validate_object_types"] = dict(
+    prop="C05",
+    params={"self": ("ref", "ProblemParser"), "lifted_predicate": ("ref", "Predicate"), "predicate_signature_items": ("ref", "list_str")},
+    returns="none", dict_values={"dict_str_ref": "PDDLType"},
+    locals={},
+    requires=["chain_wf()", "heap_closed(self)",
+              "forall_int(lambda i: forall_int(lambda j: implies(i != j, self.problem.objects.keys()[i] != self.problem.objects.keys()[j]), 0, "
+              "len(self.problem.objects.keys())), 0, len(self.problem.objects.keys()))", "allocated(self.problem)", "allocated(self.domain)", "allocated(lifted_predicate.signature)",
+              "len(predicate_signature_items) == len(lifted_predicate.signature.keys())",
+              "forall_int(lambda i: allocated(" + _SIGT.format(i="i") + "), 0, len(lifted_predicate.signature.keys()))"],
+    # accepted exactly when every argument is a declared object / constant whose type is a subtype of the required type
+    ensures=["forall_int(lambda i: known(self, " + _ITEM.format(i="i") + ") and conforms(self, " + _ITEM.format(i="i") + ", " + _SIGT.format(i="i") + "), 0, len(predicate_signature_items))"],
+    raises={"KeyError": "exists_int(lambda i: not known(self, " + _ITEM.format(i="i") + "), 0, len(predicate_signature_items))",
+            "AssertionError": "exists_int(lambda i: known(self, " + _ITEM.format(i="i") + ") and not conforms(self, " + _ITEM.format(i="i") + ", " + _SIGT.format(i="i") + "), 0, len(predicate_signature_items))"},
+    modifies=[],
+    calls={"PDDLType.is_sub_type": "models.pddl_type:PDDLType.is_sub_type"},
+    loops={0: dict(invariants=["forall_int(lambda j: anc(_seq[j], " + _SIGT.format(i="j") + ".name), 0, _i)"], modifies=[])},
+    spec_hooks=_C05_HOOKS)
